@@ -22,6 +22,7 @@ func init() {
 			"K6 the acquisition order of the four local semaphores is the same on every path. " +
 			"K7 with the state assumed Running the insertion into MaxJobsSemaphore.running is reachable in the method RemoteJobManager.reattach calls (re-attached running jobs are counted). " +
 			"K8 a fractional reservation is scaled to the semaphore's unit before it is rounded (no float->integer conversion multiplied by a constant afterwards). " +
+			"K9 the memory measurement that reaches UpdateFreeUsed excludes the job manager's own process. " +
 			"NOT decided: arithmetic of UpdateFreeUsed, curSize<=maxSize through UpdateSize, progress of the run loop.",
 		Assumptions: commonAssumptions,
 	}
@@ -433,6 +434,7 @@ func runC12(c *an.Ctx) {
 	c12Baton(c, fns)
 	ruleK7(c)
 	ruleK8(c)
+	ruleK9(c)
 }
 
 // loadBefore reports whether the field load v happens before the store st on
